@@ -503,6 +503,9 @@ class ScenarioLoader:
         # convert (subnet_id, subnet_id) string to tuple
         self.firewall = {}
         for connect, v in firewall.items():
+            assert eval(connect) not in self.firewall, \
+                ("Firewall dictionary must contain a single entry for each "
+                 f"(source, destination) pair: {connect} is a duplicate")
             self.firewall[eval(connect)] = v
 
     def _validate_firewall(self, firewall):
